@@ -236,6 +236,9 @@ func (p *pathCtx) strConcat(a, b symStr) value {
 	if a.n.IsConst() && a.n.val == 0 {
 		return p.mkStr(b)
 	}
+	if m, ok := p.mergeAdjacent(a, b); ok {
+		return p.mkStr(m)
+	}
 	capn := a.max + b.max
 	A, B := p.viewBytes(a), p.viewBytes(b)
 	zero := ts.BV(0, 8)
@@ -352,4 +355,75 @@ func (p *pathCtx) strCountByte(s symStr, c byte) *Term {
 		sum = ts.BvBin(OpBvAdd, sum, ts.Ite(m, ts.BV(1, w), ts.BV(0, w)))
 	}
 	return ts.Zext(sum, int(64-w))
+}
+
+func isConcreteStr(s symStr) (string, bool) {
+	if !s.off.IsConst() || !s.n.IsConst() {
+		return "", false
+	}
+	off, n := int(s.off.val), int(s.n.val)
+	if off+n > len(s.buf.b) {
+		return "", false
+	}
+	out := make([]byte, n)
+	for i := 0; i < n; i++ {
+		t := s.buf.b[off+i]
+		if !t.IsConst() {
+			return "", false
+		}
+		out[i] = byte(t.val)
+	}
+	return string(out), true
+}
+
+// mergeAdjacent recognises concatenations that merely re-assemble a window of one buffer:
+// two adjacent views, or a view extended by literal bytes that the path condition pins down.
+// Each case is established by an unsat answer of the solver, never assumed.
+func (p *pathCtx) mergeAdjacent(a, b symStr) (symStr, bool) {
+	ts := p.ts
+	capb := func(buf *symBuf) *Term { return ts.BV(uint64(len(buf.b)), 64) }
+	if a.buf == b.buf && len(a.buf.b) > 0 && a.buf.name != "const" {
+		adj := ts.Eq(b.off, ts.BvBin(OpBvAdd, a.off, a.n))
+		if adj.IsTrue() || (!adj.IsFalse() && p.check(ts.Not(adj), p.ex.cfg.BranchMs) == Unsat) {
+			max := a.max + b.max
+			if max > len(a.buf.b) {
+				max = len(a.buf.b)
+			}
+			return symStr{buf: a.buf, off: a.off, n: ts.BvBin(OpBvAdd, a.n, b.n), max: max}, true
+		}
+		return symStr{}, false
+	}
+	if lit, ok := isConcreteStr(b); ok && a.buf.name != "const" && len(lit) > 0 && len(lit) <= 8 {
+		end := ts.BvBin(OpBvAdd, a.off, a.n)
+		cond := ts.Cmp(OpBvUle, ts.BvBin(OpBvAdd, end, ts.BV(uint64(len(lit)), 64)), capb(a.buf))
+		tail := p.viewBytes(symStr{buf: a.buf, off: end, n: ts.BV(uint64(len(lit)), 64), max: len(lit)})
+		for j := 0; j < len(lit); j++ {
+			cond = ts.And(cond, ts.Eq(tail[j], ts.BV(uint64(lit[j]), 8)))
+		}
+		if cond.IsTrue() || (!cond.IsFalse() && p.check(ts.Not(cond), p.ex.cfg.BranchMs) == Unsat) {
+			max := a.max + len(lit)
+			if max > len(a.buf.b) {
+				max = len(a.buf.b)
+			}
+			return symStr{buf: a.buf, off: a.off, n: ts.BvBin(OpBvAdd, a.n, ts.BV(uint64(len(lit)), 64)), max: max}, true
+		}
+		return symStr{}, false
+	}
+	if lit, ok := isConcreteStr(a); ok && b.buf.name != "const" && len(lit) > 0 && len(lit) <= 8 {
+		L := ts.BV(uint64(len(lit)), 64)
+		start := ts.BvBin(OpBvSub, b.off, L)
+		cond := ts.Cmp(OpBvUle, L, b.off)
+		head := p.viewBytes(symStr{buf: b.buf, off: start, n: L, max: len(lit)})
+		for j := 0; j < len(lit); j++ {
+			cond = ts.And(cond, ts.Eq(head[j], ts.BV(uint64(lit[j]), 8)))
+		}
+		if cond.IsTrue() || (!cond.IsFalse() && p.check(ts.Not(cond), p.ex.cfg.BranchMs) == Unsat) {
+			max := b.max + len(lit)
+			if max > len(b.buf.b) {
+				max = len(b.buf.b)
+			}
+			return symStr{buf: b.buf, off: start, n: ts.BvBin(OpBvAdd, b.n, L), max: max}, true
+		}
+	}
+	return symStr{}, false
 }
